@@ -193,6 +193,9 @@ def ref_op(n, op):
     raise Reject('reference has no model for seasoning op %r' % (op,))
 
 
+NON_STRING_SCALAR_TAGS = {P + t for t in ('null', 'bool', 'int', 'float', 'timestamp', 'binary')}
+
+
 class Ref:
     def __init__(self, registered, bool_union_fix, String, resolver):
         self.reg = list(registered)
@@ -347,7 +350,9 @@ class Ref:
             cands = [name, name.replace('_', '-')] + sorted(a[2] for a, b in n[2] if a[0] == 's' and isinstance(a[2], str)
                                                             and a[2].replace('-', '_') == name)
             for nm in cands:
-                vs = [b for a, b in n[2] if a[2] == nm]
+                # attribute names are strings: a key that YAML reads as null / bool / int / float / timestamp / binary is
+                # not the attribute of the same spelling (P65)
+                vs = [b for a, b in n[2] if a[0] == 's' and a[2] == nm and a[1] not in NON_STRING_SCALAR_TAGS]
                 if vs:
                     if len(vs) > 1:
                         return False          # a parameter given twice: this mapping is not a C
